@@ -18,9 +18,9 @@ CHECKS = {
        "spelling of the reported path ('.', 'x/..'), Injective and TableExact for every entry to depth 3 x every kind (three as-built behaviours are "
        "negative controls). Every (entry, kind, spelling) is materialised on disk and fed as a synthetic notify event to the real id_of_path and "
        "the real event handler bound to a test channel, with one and two roots and with paths outside the roots; real inotify histories check the "
-       "required entries end to end.",
+       "required entries end to end. WatcherSeq.tla states that the answer for a path does not depend on the paths converted before (one id builder lives across notifications; two negative controls); every history of two notifications is replayed through ONE real handler.",
   design="5/C12", note="Needs the cfg-guarded re-export of the private watcher pieces (anchors.hook_needed); without hooks only the specification is checked.",
-  technique="TLA+ spec Watcher.tla checked by TLC; exhaustive spec->code replay through the real handler; real-watcher histories",
+  technique="TLA+ specs Watcher.tla, WatcherSeq.tla checked by TLC; exhaustive spec->code replay through the real handler (fresh and long-lived); real-watcher histories",
  ),
  "C16": dict(
   category="model_checking",
@@ -35,7 +35,7 @@ CHECKS = {
   category="model_checking",
   text="OnceInit.tla is checked by TLC over every interleaving of 3 threads x 4 attempts x outcomes for both seed kinds (negative control: seed "
        "dropped inside the initialiser); the real cell goes through every outcome sequence up to length 4 on both code paths and with a "
-       "panicking seed destructor with counted seeds/values, and through 300 races of 2-4 threads.",
+       "panicking seed destructor with counted seeds/values, through 300 races of 2-4 threads and 300 publish races (readers spinning on get() while one thread initialises; negative control PublishLate).",
   design="5/C17", note="Interleavings of the real races are OS-produced.",
   technique="TLA+ spec OnceInit.tla checked by TLC; exhaustive outcome-sequence replay on the real cell with drop accounting",
  ),
@@ -74,7 +74,7 @@ CHECKS = {
   text="RwGuard.tla refines rewrites and reads to word granularity under the entry lock; TLC checks NoTornRead, Pinned, ChangeOnlyInHotReload and "
        "ReturnAfterPass over every interleaving of 2 readers, reloader and caller in both modes (two negative controls). Real reader threads with "
        "short, long-held and mapped guards over a 4 KiB inline value race a stream of reloads under both lock implementations and both modes; "
-       "their GuardAcq/GuardRel observations, the Write hook and hot_reload Begin/End are validated against the specification.",
+       "their GuardAcq/GuardRel observations, the Write hook and hot_reload Begin/End are validated against the specification; inline values of 60 size classes (1 .. 4100 bytes, alignments 1/2/4/8) are reloaded and must be replaced whole.",
   design="5/C07", note="Torn reads in the real runs are detected probabilistically; memory orderings are not modelled.",
   technique="TLA+ spec RwGuard.tla checked by TLC; trace validation of guard/write/hot_reload events from reader-vs-reloader stress runs",
  ),
@@ -93,20 +93,20 @@ CHECKS = {
        "NoLostWakeup and (under fairness) AllReturn, with the as-built consume-without-notify as negative control; Reloader.tla bounds the sort "
        "on every dependency graph incl. cycles; Lifecycle.tla shows no request is orphaned. The real crate runs 2-8 concurrent callers x "
        "loader threads x event bursts (plain, cyclic look-ups, panicking reloads, sender dropped mid-run) in a child under a progress "
-       "watchdog, and its Request/Notify/Consume/return events are validated against Answers.tla.",
+       "watchdog; its Request/Notify/Consume/return events are validated against Answers.tla (up to 4 callers) and every hook event of the reloader thread against the thread automaton Trace_Thread.tla.",
   design="5/C08", note="Real schedules are those the OS produced (seeded drivers); all schedules are covered only in the model, for <= 4 callers. "
        "Blocked = no completed call and no CPU for 4 s.",
-  technique="TLA+ specs Answers.tla, Reloader.tla checked by TLC (safety, deadlock, liveness); trace validation of hook events from concurrent stress runs; progress watchdog",
+  technique="TLA+ specs Answers.tla, Reloader.tla, ChannelCap.tla checked by TLC (safety, deadlock, liveness); trace validation of hook events from concurrent stress runs (Trace_Answers.tla, Trace_Thread.tla); progress watchdog",
  ),
  "C15": dict(
   category="model_checking",
   text="Lifecycle.tla models the reloader's select loop and the lifetimes of its channels; TLC checks NoSpin, BlockedWhenIdle, NoOrphanRequest and, "
        "under fairness, GoesAway/AllAnswered over every order of use, cache drop and sender drop (as-built exits are negative controls). "
        "Hook events of real create/use/drop rounds are validated against it (every wake-up has a cause, every iteration consumes, exit exactly "
-       "after the drop), and /proc gives the thread's CPU time when idle and its disappearance after the drop, for in-memory and FileSystem sources.",
+       "after the drop), and /proc gives the thread's CPU time when idle and its disappearance after the drop, for in-memory and FileSystem sources (incl. the file watchers of dropped caches). DropOrder.tla: the reloader is let go before the source, so a source whose destructor waits for its event channel to close does not block drop(cache) (negative control: source first).",
   design="5/C15", note="CPU time and thread existence are OS measurements with the thresholds stated in the evidence; FileSystem rounds are measured but not "
        "trace-validated (the watcher's sends are not logged).",
-  technique="TLA+ spec Lifecycle.tla checked by TLC; trace validation of the reloader loop's hook events; /proc thread accounting in a child process",
+  technique="TLA+ specs Lifecycle.tla, DropOrder.tla checked by TLC (safety + liveness); trace validation of the reloader loop's hook events; /proc thread accounting in a child process",
  ),
  "C05": dict(
   category="model_checking",
@@ -114,9 +114,9 @@ CHECKS = {
        "asset depends on is pending) on the diamond, re-wiring and directory worlds, and the as-built sort against OrderOK on every graph "
        "of <= 5 nodes incl. cycles; the D8 shape is the negative control. Every generated history (value edits, re-wiring, break/repair, "
        "create/delete, directory changes, batches with duplicates and noise, hot_reload and enhance modes) is replayed on the real crate "
-       "with values, reload ids and registered dependency sets compared after every step.",
+       "with values, reload ids and registered dependency sets compared after every step, and every hook event of the reloader thread in those replays is validated against Trace_Thread.tla / DepsGraph.tla (loop structure, answers after their pass, known verdicts, changed sets, OrderOK).",
   design="5/C05", note=HOT_NOTE + " Known finding C05/rewire-same-batch is reported as KNOWN-FINDING.",
-  technique="TLA+ specs AssetCache.tla + Reloader.tla checked by TLC; spec->code replay of TLC-generated edit/notify histories with hook-based synchronisation",
+  technique="TLA+ specs AssetCache.tla + Reloader.tla checked by TLC; spec->code replay of TLC-generated edit/notify histories with hook-based synchronisation; code->spec trace validation of the reloader thread (Trace_Thread.tla)",
  ),
  "C06": dict(
   category="model_checking",
